@@ -48,16 +48,40 @@ Example F2_lazybreak_in_region_at_top :
   mout t_lazy_region ctx_new = Some ([], Some ELBreak) /\ rout t_lazy_region ctx_new = (B "A", SLazy).
 Proof. vm_compute. split; reflexivity. Qed.
 
-(* F3. break inside a for-else branch, inside an outer loop: the interpreter hands ErrBreakLoop to
-   the outer loop, which takes it for a break; the reference semantics reports an error. *)
+(* (F3, withdrawn.)  break inside a for-else branch, inside an outer loop: the instruction is
+   lexically inside the enclosing loops and names them; the interpreter hands the signal on through
+   the inner loop, and so does the reference semantics now (it used to report an error). *)
 Definition t_break_in_else :=
   [ACLoop (B "i") (B "0") (B "2") true true OpLt OpInc []
      [AText (B "a");
       ACLoop (B "j") (B "0") (B "0") true true OpLt OpInc [] [] [ABreak false 0 false no_cond] true;
       AText (B "b")] [] false;
    AText (B "c")].
-Example F3_break_in_for_else :
-  mout t_break_in_else ctx_new = Some (B "ac", None) /\ rout t_break_in_else ctx_new = (B "a", SErr EBreak).
+Example break_in_for_else_agrees :
+  mout t_break_in_else ctx_new = Some (B "ac", None) /\ rout t_break_in_else ctx_new = (B "ac", SNone).
+Proof. vm_compute. split; reflexivity. Qed.
+
+(* the depth form: break 2 in the else branch of an inner loop without iterations ends the two
+   enclosing loops: the middle loop at once, the outer one at its next iteration check (so the rest
+   "z" of the outer body is still rendered, as with any break 2); the text behind the break and
+   the rest "y" of the middle body are not rendered, the text after the outermost loop is *)
+Definition t_break2_in_else :=
+  [ACLoop (B "i") (B "0") (B "3") true true OpLt OpInc []
+     [AText (B "a");
+      ACLoop (B "j") (B "0") (B "3") true true OpLt OpInc []
+        [AText (B "b");
+         ACLoop (B "k") (B "0") (B "0") true true OpLt OpInc [] [] [ABreak false 2 false no_cond; AText (B "x")] true;
+         AText (B "y")] [] false;
+      AText (B "z")] [] false;
+   AText (B "!")].
+Example break2_in_for_else_agrees :
+  mout t_break2_in_else ctx_new = Some (B "abz!", None) /\ rout t_break2_in_else ctx_new = (B "abz!", SNone).
+Proof. vm_compute. split; reflexivity. Qed.
+
+(* both are inside the supported sub-language: the refinement theorem covers control instructions
+   in for-else branches (they used to fall outside [sig_dom], as errors of the reference) *)
+Example for_else_control_supported :
+  forallb (wf_supported true) t_break_in_else = true /\ forallb (wf_supported true) t_break2_in_else = true.
 Proof. vm_compute. split; reflexivity. Qed.
 
 (* F4. a comparison of two literals with an else branch: the interpreter falls into the else
